@@ -84,7 +84,7 @@ def real_spec(row, n):
     import grp
     import pwd
     c = row["case"]
-    mu, mg = REAL_IDS["root"] if c["master"] == "root" else REAL_IDS["user"]
+    mu, mg = REAL_IDS["root"] if c["master"] == "root" else (0, REAL_IDS["other"][1]) if c["master"] == "rootsplit" else REAL_IDS["user"]
 
     def ident(t, which):
         if t in ("unset", "same"):
@@ -120,7 +120,7 @@ def to_abstract(rec):
 
 
 def call_driver(mode, arg, timeout=600):
-    env = dict(os.environ, VERIF_REPO=os.environ.get("VERIF_REPO", "/repo"))
+    env = dict(os.environ, VERIF_REPO=os.environ.get("VERIF_REPO", "/repo"), VERIF_WTMP_TAG=str(os.getpid()))
     p = subprocess.run([sys.executable, "-B", os.path.join(os.path.dirname(drv.__file__), "privs.py"), mode],
                        input=json.dumps(arg), capture_output=True, text=True, timeout=timeout, env=env)
     if p.returncode != 0 or not p.stdout.strip():
@@ -221,7 +221,7 @@ def signature(v, rec):
         if rec["gid"] == 0 and "groups" in parts:
             extra = ",gid=0"
         if c["master"] != "root":
-            extra += ",master=nonroot"
+            extra += ",master=nonroot" if c["master"] == "user" else ",master=" + c["master"]
         return "C20/%s/%s,%s%s" % (v, ig, what, extra)
     if v == "PermittedDropSucceeds":
         return "C20/%s/%s,exc=%s,user=%s" % (v, ig, rec.get("exc") or "?",
@@ -272,6 +272,7 @@ def judge(ctx, traces):
 
 
 def c20(ctx):
+    os.environ["VERIF_WTMP_TAG"] = str(os.getpid())
     os.makedirs(drv.SCRATCH, exist_ok=True)
     os.chmod(drv.SCRATCH, 0o755)
     if os.geteuid() != 0:
@@ -286,7 +287,9 @@ def c20(ctx):
                    {"tag": "badhup", "user": "www-data", "group": "www-data", "uid": 33, "gid": 33,
                     "initgroups": False, "worker_class": "sync", "badhup": True},
                    {"tag": "envusr2", "user": "nobody", "group": "nogroup", "uid": 65534, "gid": 65534,
-                    "initgroups": False, "worker_class": "sync", "via_env": True, "usr2": True}]
+                    "initgroups": False, "worker_class": "sync", "via_env": True, "usr2": True},
+                   {"tag": "cwdconf", "user": "nobody", "group": "nogroup", "uid": 65534, "gid": 65534,
+                    "initgroups": False, "worker_class": "sync", "cwdconf": True}]
         if not ctx.quick:
             servers += [
                 {"tag": "initsync", "user": "www-data", "group": "www-data", "uid": 33, "gid": 33,
@@ -373,7 +376,7 @@ def c20(ctx):
                     ctx.notes.append("server run %s observed only generations %s" % (o["spec"]["tag"], kinds))
             ctx.coverage["server_worker_observations"] = nserver
         import shutil
-        shutil.rmtree(os.path.join(drv.SCRATCH, "wtmp"), ignore_errors=True)
+        shutil.rmtree(drv.wtmp_dir(), ignore_errors=True)
         judge(ctx, traces)
         for t in traces[:1] + traces[len(rows):len(rows) + 1] + traces[-1:]:
             r = t[0]
